@@ -1124,6 +1124,21 @@ private:
       {
         try { c.listenerReady->set_value(false); } catch (...) {}
       }
+      if (c.t == Cmd::Connect)
+      {
+        // connect() already returned ok(sid) for this command (it was pushed after the
+        // process() above, before the queue closed). The session will never exist, so
+        // report the terminal event now — every id handed out gets exactly one onClose.
+        // The queue is closed at this point, so a connect() issued from inside this
+        // callback is rejected (ShuttingDown) instead of being queued.
+        decltype(_cbs.onClose) closeCb;
+        { std::lock_guard<std::mutex> g(_cbMutex); closeCb = _cbs.onClose; }
+        if (closeCb)
+        {
+          closeCb(c.c.sid, TransportErrorInfo{TransportError::ShuttingDown,
+                                               "connect: transport shutting down", 0, 0});
+        }
+      }
     }
     if (_epollFd >= 0)
     {
